@@ -91,12 +91,13 @@ class SList:
         if not (C(mk.fn(k)) == C(self.filt(k))) or not T.equal(self.base_len, a.shape[0]):
             raise ModelError("masked store whose mask differs from the list filter")
         el = self.elem
+        afn, mkfn = a.fn, mk.fn        # snapshots: `a` itself is updated in place with this result
 
         def fn(*idx):
             v = el(idx[0])
             if not isinstance(v, Arr):
                 raise ModelError("list elements are not arrays")
-            return T.mk_ite(C(mk.fn(idx[0])), v.fn(*idx[1:]), a.fn(*idx))
+            return T.mk_ite(C(mkfn(idx[0])), v.fn(*idx[1:]), afn(*idx))
         return Arr(a.shape, fn, a.dtype, a.kind, a.mask)
 
     def __repr__(self):
